@@ -1,6 +1,6 @@
 CONSTANTS
   Scenarios <- ScnEnum
-  FixWait = TRUE
+  FixF10 = FALSE
   GenHist = TRUE
 INIT Init
 NEXT Next
